@@ -835,6 +835,37 @@ def r11_17(ctx, rep):
         raise MechanismMissing(R, "the two truncation statements (src = src[0:<other>.size1()]) were not found in exitEquation")
 
 
+@SPEC.rule(
+    "R11.18",
+    "der(<expression>) keeps every variable the expression depends on: where Generator.get_derivative decides from the Jacobian's sparsity "
+    "that a dependency does not matter, it looks at all Jacobian entries of that dependency — the columns from its offset to its offset + "
+    "its number of elements, in every row — not at entry (0, j) with j the position of the dependency in the list (for a vector x, "
+    "der(5*x[2]) depends on the second column only, and the derivative would be dropped)",
+)
+def r11_18(ctx, rep):
+    R = "R11.18"
+    fn = ctx.func(GEN, "Generator.get_derivative", R)
+    site = GEN + ":Generator.get_derivative"
+    hz = [c for c in ast.walk(fn) if isinstance(c, ast.Call) and isinstance(c.func, ast.Attribute) and c.func.attr == "has_nz" and len(c.args) == 2]
+    if not hz:
+        raise MechanismMissing(R, "the sparsity test of the Jacobian (has_nz) was not found in get_derivative")
+    # the counters of enumerations over the dependency list
+    counters = set()
+    for n_ in ast.walk(fn):
+        gens = n_.generators if isinstance(n_, (ast.ListComp, ast.GeneratorExp, ast.SetComp)) else []
+        loops = [(g.target, g.iter) for g in gens] + ([(n_.target, n_.iter)] if isinstance(n_, ast.For) else [])
+        for tgt, it in loops:
+            if isinstance(it, ast.Call) and is_name(it.func, "enumerate") and isinstance(tgt, ast.Tuple) and isinstance(tgt.elts[0], ast.Name):
+                counters.add(tgt.elts[0].id)
+    for k, c in enumerate(hz):
+        row, col = c.args
+        col_ok = not (isinstance(col, ast.Name) and col.id in counters)
+        row_ok = not isinstance(row, ast.Constant)
+        rep.ob(R, site, "sparsity test #%d covers the dependency's own Jacobian entries" % (k + 1), col_ok and row_ok,
+               "`%s` tests one entry — column = position of the dependency in the list, row = %s: for a dependency with several elements (or an "
+               "expression with several rows) the other entries are not looked at and a non-zero derivative is dropped" % (norm(c), norm(row)))
+
+
 # -- seeded variants ---------------------------------------------------------
 from ._mut import replace_in_func  # noqa: E402
 
